@@ -24,7 +24,9 @@ NUMERIC = re.compile(r"[<\[ ,&](u8|u16|u32|u64|usize|i8|i16|i32|i64|isize)[>\], 
 
 def cone(ctx, facts):
     roots = [facts.one(A.DB + "::add"), facts.one(A.DB + "::add_batch"), facts.one(A.SB + "::insert")]
-    return facts.cone(roots)
+    # add_batch builds the inner dispatcher: building (pool creation, wiring) places nothing
+    build = facts.one(A.DB + "::build")
+    return facts.cone(roots, stop=lambda b: b.key == build.key)
 
 
 def scan(ctx, report, facts, config, pfx="C19"):
